@@ -537,3 +537,34 @@ RECIPES["C16"]["jobs"].append(
      "splits": {"quick": [{"VP_LEN": n} for n in (2, 3, 4)], "thorough": [{"VP_LEN": n} for n in range(1, 8)]},
      "unwind": "VP_LEN + 3", "unwindset": ["ctype_init.0:31", "ctype_init.1:17", "harness.0:12", "harness.1:12", "harness.2:12"],
      "fp_restrict": FP_CONFIG, "timeout": 900})
+
+FP_LOG = dict(FP_CONFIG)
+FP_LOG.update({
+    "log_vmessage.function_pointer_call.1": ["rec_log"], "log_vmessage.function_pointer_call.2": ["rec_log"],
+    "log_destination_cleanup.function_pointer_call.1": ["rec_close"],
+    "log_destination_open.function_pointer_call.1": ["rec_open"],
+    "log_reopen.function_pointer_call.1": ["rec_reopen"],
+})
+
+
+def _log_pairs(thorough):
+    pairs = [(0, 1), (1, 2), (2, 3), (3, 4), (5, 0), (1, 1)]
+    if thorough:
+        pairs += [(4, 5), (2, 5), (5, 2), (3, 1), (0, 0), (4, 4)]
+    out = [{"_name": "s%d_s%d" % p, "VP_S0": p[0], "VP_S1": p[1]} for p in pairs]
+    for k in ((0, 1, 2, 3, 5) if thorough else (1, 2, 3)):
+        out.append({"_name": "s%d" % k, "VP_S0": k, "VP_S1": k, "ONE_LOAD": None})
+    return out
+
+
+RECIPES["C18"] = {
+    "units": ["src/log.c", "src/config.c", "src/set.c", "src/common.c"],
+    "jobs": [
+        {"name": "route", "src": ["C18_route.c"] + CONFIG_TU, "gen": _gen_shim.gen,
+         "defs": {"all": {"VP_HAVE_LOG": None}},
+         "splits": {"quick": _log_pairs(False), "thorough": _log_pairs(True)},
+         "unwind": 24, "unwindset": CONFIG_UW + ["strcmp.0:24", "strcasecmp.0:24", "strlen.0:24", "strcpy.0:24", "strchr.0:24", "memcpy.0:40",
+                                                 "log_type_cleanup.0:8", "log_type_cleanup.1:8", "ctype_init.0:31", "ctype_init.1:17", "vpm_num.0:12", "vpm_num.1:12", "vpm_num.2:12", "vpm_num.3:12"],
+         "fp_restrict": FP_LOG, "timeout": 900},
+    ],
+}
